@@ -1546,6 +1546,9 @@ class Emitter:
         parts.extend(autostubs)
         parts.append("/* ---- translated functions */")
         parts.extend(fn_bodies)
+        for e in self.entries:
+            parts.append("/* entry wrapper: an exception that leaves the harness escaped every handler of the code under test */")
+            parts.append("void vf_main_%s(void)\n{\n  %s();\n  VF_ASSERT(!vf_eh_pending, \"no exception escapes uncaught\");\n}" % (cident(e), self.fname(e)))
         if m.ctors:
             parts.append("void vf_global_ctors(void) {")
             for c in m.ctors:
